@@ -194,6 +194,94 @@ theorem ces_fields (F : FTy) (q : Int) (hi lz : Nat) (hhi : hi < 2 ^ 64) (hhi62 
       exact Nat.mod_eq_of_lt (by omega)
     · rw [hd]; simp
 
+/-! ## the lossy answer on the fall-back inputs -/
+
+/-- with `lossy`, `compute_float` answers on `(q, w)` with a valid float which is `roundNE` of a value `n'/d'` that is at
+most the exact `num/den` and within a factor `1 + 2^−61` of it (the computed 128-bit product, read as exact) -/
+def LossyOK (F : FTy) (q : Int) (w num den : Nat) : Prop :=
+  ∃ fp n' d', computeFloat F q w true = .ok fp ∧ 0 ≤ fp.exp ∧ 0 < d' ∧
+    extendedToFloat F fp = roundNE F.fmt n' d' ∧ n' * den ≤ num * d' ∧
+    num * d' * 2 ^ 61 ≤ n' * den * (2 ^ 61 + 1)
+
+/-- with `lossy` the fall-back test is skipped: past the early exits `compute_float` is `cfRound` of the product -/
+theorem computeFloat_lossy_eq (F : FTy) (q : Int) (w lo hi : Nat)
+    (h1 : ¬ (w = 0 ∨ q < F.C.smallestPowerOfTen)) (h2 : ¬ q > F.C.largestPowerOfTen)
+    (hcpa : computeProductApprox q (shl64m w (clz64 w)) (F.ms + litPrecisionExtra) = some (lo, hi)) :
+    computeFloat F q w true = cfRound F q lo hi (clz64 w) := by
+  unfold computeFloat
+  rw [if_neg h1, if_neg h2]
+  simp only [hcpa]
+  simp
+
+/-- **`cfRound` on a product with `lo ≥ 2`** (normal range): no tie is detected and the computed `z = hi·2^64 + lo` is not
+a multiple of the rounding unit, so the answer encodes the half-to-even quotient of `z` itself -/
+theorem cfRound_computed_normal {F p eb sm lg rlo rhi} (LL : LemLayout F p eb sm lg rlo rhi) (q : Int) (lo hi lz : Nat)
+    (hlo2 : 2 ≤ lo) (hlo : lo < 2 ^ 64) (hhi_lt : hi < 2 ^ 64) (hhi_ge : 2 ^ 62 ≤ hi) (u sh : Nat)
+    (hu : hi / 2 ^ 63 = u) (hshv : u + 62 - p = sh) (En : Nat)
+    (hpw2 : power (wrapI32 q) + (u : Int) - (lz : Int) - F.C.minimumExponent = (((En + 1 : Nat)) : Int)) :
+    ∃ fp, cfRound F q lo hi lz = .ok fp ∧ 0 ≤ fp.exp ∧
+      extendedToFloat F fp = encode F.fmt En (rhe (hi * 2 ^ 64 + lo) (2 ^ sh * 2 ^ 64 * 2)) ∧
+      2 ^ (p - 1) ≤ rhe (hi * 2 ^ 64 + lo) (2 ^ sh * 2 ^ 64 * 2) ∧
+      rhe (hi * 2 ^ 64 + lo) (2 ^ sh * 2 ^ 64 * 2) ≤ 2 * 2 ^ (p - 1) ∧ 2 ^ p ≤ hi / 2 ^ sh := by
+  have hB := Nat.two_pow_pos 64
+  have hzB : (hi * 2 ^ 64 + lo) / 2 ^ 64 = hi := by
+    rw [Nat.mul_comm, Nat.mul_add_div hB, Nat.div_eq_of_lt hlo, Nat.add_zero]
+  have hquot : hi / 2 ^ sh = (hi * 2 ^ 64 + lo) / (2 ^ sh * 2 ^ 64) := by
+    rw [Nat.mul_comm (2 ^ sh), ← Nat.div_div_eq_div_mul, hzB]
+  have hmodne : (hi * 2 ^ 64 + lo) % (2 ^ sh * 2 ^ 64) ≠ 0 := by
+    intro h
+    have h1 : 2 ^ 64 ∣ hi * 2 ^ 64 + lo :=
+      Nat.dvd_trans ⟨2 ^ sh, Nat.mul_comm _ _⟩ (Nat.dvd_of_mod_eq_zero h)
+    have h2 : 2 ^ 64 ∣ lo := (Nat.dvd_add_right ⟨hi, Nat.mul_comm _ _⟩).mp h1
+    have := Nat.le_of_dvd (by omega) h2
+    omega
+  apply cfRound_of_quot LL q lo hi lz hhi_lt hhi_ge u sh hu hshv (hi * 2 ^ 64 + lo) (2 ^ sh * 2 ^ 64) En
+    (Nat.mul_pos (Nat.two_pow_pos _) hB) hquot ?_ hpw2
+  have hL : decide (lo ≤ litTieLo) = false := by
+    unfold litTieLo; simp only [decide_eq_false_iff_not]; omega
+  rw [hL]
+  simp only [Bool.false_and, Bool.false_eq_true, false_iff, not_and]
+  intro h _
+  exact hmodne h
+
+theorem rel61 (z Dz N c : Nat) (hc : c * 2 ^ 61 ≤ z) (h : N ≤ (z + c) * Dz) :
+    N * 2 ^ 61 ≤ z * Dz * (2 ^ 61 + 1) := by
+  calc N * 2 ^ 61 ≤ (z + c) * Dz * 2 ^ 61 := Nat.mul_le_mul_right _ h
+    _ = (z * 2 ^ 61 + c * 2 ^ 61) * Dz := by ring
+    _ ≤ (z * 2 ^ 61 + z) * Dz := Nat.mul_le_mul_right _ (Nat.add_le_add_left hc _)
+    _ = z * Dz * (2 ^ 61 + 1) := by ring
+
+/-- the computed `z` and the exact value on a fall-back input: `z·Dz ≤ N < (z + 2^64 + 1)·Dz`, `z ≥ 2^126` -/
+theorem lossy_bounds (wn hi5 lo5 lo hi N Dn : Nat)
+    (hwn1 : 2 ^ 63 ≤ wn) (hwn2 : wn < 2 ^ 64) (hhi5n : 2 ^ 63 ≤ hi5) (hhi : hi < 2 ^ 64)
+    (hzlow : (hi * 2 ^ 64 + lo) * 2 ^ 64 ≤ wn * (hi5 * 2 ^ 64 + lo5))
+    (hzup : wn * (hi5 * 2 ^ 64 + lo5) < (hi * 2 ^ 64 + lo + 1) * 2 ^ 64 ∨
+      (hi * 2 ^ 64 + lo = wn * hi5 ∧
+        wn * (hi5 * 2 ^ 64 + lo5) < (hi * 2 ^ 64 + lo + 2 ^ 64) * 2 ^ 64))
+    (hDn : 0 < Dn) (hNlo : wn * (hi5 * 2 ^ 64 + lo5) * Dn ≤ N)
+    (hNhi : N < (wn * (hi5 * 2 ^ 64 + lo5) + wn) * Dn) (hall : lo + 1 = 2 ^ 64) :
+    2 ^ 62 ≤ hi ∧ (hi * 2 ^ 64 + lo) * (2 ^ 64 * Dn) ≤ N ∧
+      N * 2 ^ 61 ≤ (hi * 2 ^ 64 + lo) * (2 ^ 64 * Dn) * (2 ^ 61 + 1) := by
+  obtain ⟨hhi62, _, hupp⟩ := fallback_bounds wn hi5 lo5 lo hi N Dn hwn1 hwn2 hhi5n hhi hzlow hzup hDn hNlo hNhi hall
+  have hlowz : (hi * 2 ^ 64 + lo) * (2 ^ 64 * Dn) ≤ N := by
+    calc (hi * 2 ^ 64 + lo) * (2 ^ 64 * Dn) = ((hi * 2 ^ 64 + lo) * 2 ^ 64) * Dn := by ring
+      _ ≤ wn * (hi5 * 2 ^ 64 + lo5) * Dn := Nat.mul_le_mul_right _ hzlow
+      _ ≤ N := hNlo
+  refine ⟨hhi62, hlowz, ?_⟩
+  -- (hi + 2)·B = z + B + 1, and (B + 1)·2^61 ≤ 2^126 ≤ z
+  have hz : (hi + 2) * 2 ^ 64 = hi * 2 ^ 64 + lo + (2 ^ 64 + 1) := by
+    rw [Nat.add_mul]; omega
+  have h126 : (2 ^ 64 + 1) * 2 ^ 61 ≤ hi * 2 ^ 64 + lo := by
+    have e1 : (2 ^ 64 + 1) * 2 ^ 61 ≤ 2 ^ 62 * 2 ^ 64 := by decide
+    have e2 : 2 ^ 62 * 2 ^ 64 ≤ hi * 2 ^ 64 := Nat.mul_le_mul_right _ hhi62
+    exact Nat.le_trans e1 (Nat.le_trans e2 (Nat.le_add_right _ _))
+  have hDz : 0 < 2 ^ 64 * Dn := Nat.mul_pos (Nat.two_pow_pos 64) hDn
+  have hupp' : N ≤ (hi * 2 ^ 64 + lo + (2 ^ 64 + 1)) * (2 ^ 64 * Dn) := by
+    rw [← hz]
+    calc N ≤ (hi + 2) * (2 ^ 64 * (2 ^ 64 * Dn)) := Nat.le_of_lt hupp
+      _ = (hi + 2) * 2 ^ 64 * (2 ^ 64 * Dn) := by ring
+  exact rel61 _ _ _ _ h126 hupp'
+
 theorem fb_eq_pos (q b lz hilz K S p Lf : Nat) (Cb P : Int) (hL : (Lf : Int) = Cb - 1) (hb65 : 65 ≤ b)
     (hP : P = 62 + (q : Int) + (b : Int) + Cb - hilz - lz - 62) (hrel : (S : Int) + (P - 1) = K) :
     (128 + (b - 128)) + (q + Lf + S) = (hilz + K) + (lz + (128 - b)) := by omega
@@ -300,13 +388,90 @@ theorem estOK_neg {F p eb} (lay : Layout F p eb) (e b lz hi w : Nat) (hb795 : b 
         Nat.mul_le_mul_right _ (Nat.mul_le_mul_right _ (by omega))
       _ = (hi * 2 ^ hilz + 4) * 2 ^ K * 10 ^ e := by rw [h10]
 
+theorem en_lossy_pos (q b u lz bias sh p Lf : Nat) (hshv : u + 62 - p = sh) (hL : Lf = bias + (p - 1) - 1) (hu : u ≤ 1)
+    (hp : 2 ≤ p) (hp61 : p ≤ 61) (hb129 : 129 ≤ b) (hq56 : 56 ≤ q) (hlz : lz ≤ 63) :
+    61 + q + b + u + bias - lz = sh + 65 + ((q + b - lz - 64) + Lf) := by omega
+
+/-- the lossy answer on a fall-back input of a row `q ≥ 56` -/
+theorem lossyOK_pos {F p eb sm lg rlo rhi} (LL : LemLayout F p eb sm lg rlo rhi) (q b lz hi lo w : Nat)
+    (hb129 : 129 ≤ b) (hq56 : 56 ≤ q) (hlz : lz ≤ 63) (hlo : lo < 2 ^ 64) (hall : lo + 1 = 2 ^ 64)
+    (hhi : hi < 2 ^ 64) (hhi62 : 2 ^ 62 ≤ hi)
+    (hpow : power (wrapI32 (q : Int)) = 62 + (q : Int) + (b : Int))
+    (hlossy : computeFloat F (q : Int) w true = cfRound F (q : Int) lo hi lz)
+    (hzl : (hi * 2 ^ 64 + lo) * (2 ^ 64 * 2 ^ (b - 128)) ≤ w * 2 ^ lz * 5 ^ q * 2 ^ (128 - b))
+    (hzu : w * 2 ^ lz * 5 ^ q * 2 ^ (128 - b) * 2 ^ 61 ≤
+      (hi * 2 ^ 64 + lo) * (2 ^ 64 * 2 ^ (b - 128)) * (2 ^ 61 + 1)) :
+    LossyOK F (q : Int) w (w * 10 ^ q) 1 := by
+  have lay := LL.lay
+  have hf := lay.wf
+  have hp := lay.hp; have hp64 := lay.hp64; have heb := lay.heb
+  have hfp : F.fmt.p = p := by rw [lay.fmt]
+  have hp61 : p ≤ 61 := by
+    have h1 := lay.hpb
+    have : eb ≠ 2 := by intro h; subst h; omega
+    omega
+  have hk0 : 128 - b = 0 := by omega
+  rw [hk0, Nat.pow_zero, Nat.mul_one] at hzl hzu
+  generalize hu : hi / 2 ^ 63 = u
+  generalize hshv : u + 62 - p = sh
+  have hu01 : u ≤ 1 := by
+    rw [← hu]
+    have : hi / 2 ^ 63 < 2 := by
+      rw [Nat.div_lt_iff_lt_mul (Nat.two_pow_pos _)]; omega
+    omega
+  have hpw2 : power (wrapI32 (q : Int)) + (u : Int) - (lz : Int) - F.C.minimumExponent =
+      (((61 + q + b + u + (2 ^ (eb - 1) - 1) - lz + 1 : Nat)) : Int) := by
+    rw [hpow, LL.minimum]; omega
+  obtain ⟨fp, hfp1, hfp2, hfp3, hq0lo, hq0hi, hm0lo⟩ := cfRound_computed_normal LL (q : Int) lo hi lz (by omega) hlo
+    hhi hhi62 u sh hu hshv _ hpw2
+  have h10 : (10 : Nat) ^ q = 5 ^ q * 2 ^ q := by rw [← Nat.mul_pow]
+  refine ⟨fp, (hi * 2 ^ 64 + lo) * 2 ^ (q + b - lz - 64), 1, by rw [hlossy]; exact hfp1, hfp2, Nat.one_pos, ?_, ?_, ?_⟩
+  · rw [hfp3]
+    symm
+    have hL := L_eq lay
+    apply roundNE_of_scaled hf (by decide) _ (hi * 2 ^ 64 + lo) _ (2 ^ ((q + b - lz - 64) + L F.fmt))
+      (Nat.two_pow_pos _) (Nat.mul_pos (Nat.mul_pos (Nat.two_pow_pos _) (Nat.two_pow_pos _)) (by decide))
+    · rw [Nat.pow_add]; ring
+    · rw [Nat.one_mul]
+      rw [show ∀ a c : Nat, 2 ^ a * 2 ^ 64 * 2 * 2 ^ c = 2 ^ (a + 65 + c) from fun a c => by
+        rw [Nat.pow_add, Nat.pow_add]; ring]
+      exact two_pow_congr (en_lossy_pos q b u lz (2 ^ (eb - 1) - 1) sh p (L F.fmt) hshv hL hu01 hp hp61 hb129 hq56 hlz)
+    · intro _; rw [hfp]; exact hq0lo
+    · rw [hfp]; exact hq0hi
+    · intro _
+      rw [hfp]
+      have hTT : 2 ^ p = 2 * 2 ^ (p - 1) := two_pow_pred (by omega)
+      have hdm := Nat.div_mul_le_self hi (2 ^ sh)
+      calc 2 ^ sh * 2 ^ 64 * 2 * 2 ^ (p - 1) = (2 ^ p * 2 ^ sh) * 2 ^ 64 := by rw [hTT]; ring
+        _ ≤ (hi / 2 ^ sh * 2 ^ sh) * 2 ^ 64 := Nat.mul_le_mul_right _ (Nat.mul_le_mul_right _ hm0lo)
+        _ ≤ hi * 2 ^ 64 := Nat.mul_le_mul_right _ hdm
+        _ ≤ hi * 2 ^ 64 + lo := Nat.le_add_right _ _
+  · have h1 : (hi * 2 ^ 64 + lo) * 2 ^ (64 + (b - 128)) ≤ (w * 5 ^ q) * 2 ^ lz := by
+      calc (hi * 2 ^ 64 + lo) * 2 ^ (64 + (b - 128)) = (hi * 2 ^ 64 + lo) * (2 ^ 64 * 2 ^ (b - 128)) := by
+            rw [Nat.pow_add]
+        _ ≤ w * 2 ^ lz * 5 ^ q := hzl
+        _ = (w * 5 ^ q) * 2 ^ lz := by ring
+    have h2 := pow_shift_le (hi * 2 ^ 64 + lo) (w * 5 ^ q) _ _ (q + b - lz - 64) q h1 (by omega)
+    calc (hi * 2 ^ 64 + lo) * 2 ^ (q + b - lz - 64) * 1 = (hi * 2 ^ 64 + lo) * 2 ^ (q + b - lz - 64) := by ring
+      _ ≤ (w * 5 ^ q) * 2 ^ q := h2
+      _ = w * 10 ^ q * 1 := by rw [h10]; ring
+  · have h1 : (w * 5 ^ q * 2 ^ 61) * 2 ^ lz ≤ ((hi * 2 ^ 64 + lo) * (2 ^ 61 + 1)) * 2 ^ (64 + (b - 128)) := by
+      calc (w * 5 ^ q * 2 ^ 61) * 2 ^ lz = w * 2 ^ lz * 5 ^ q * 2 ^ 61 := by ring
+        _ ≤ (hi * 2 ^ 64 + lo) * (2 ^ 64 * 2 ^ (b - 128)) * (2 ^ 61 + 1) := hzu
+        _ = ((hi * 2 ^ 64 + lo) * (2 ^ 61 + 1)) * 2 ^ (64 + (b - 128)) := by rw [Nat.pow_add]; ring
+    have h2 := pow_shift_le (w * 5 ^ q * 2 ^ 61) ((hi * 2 ^ 64 + lo) * (2 ^ 61 + 1)) _ _ q (q + b - lz - 64) h1
+      (by omega)
+    calc w * 10 ^ q * 1 * 2 ^ 61 = (w * 5 ^ q * 2 ^ 61) * 2 ^ q := by rw [h10]; ring
+      _ ≤ ((hi * 2 ^ 64 + lo) * (2 ^ 61 + 1)) * 2 ^ (q + b - lz - 64) := h2
+      _ = (hi * 2 ^ 64 + lo) * 2 ^ (q + b - lz - 64) * 1 * (2 ^ 61 + 1) := by ring
+
 /-- **`compute_float` on the truncated rows** `28 ≤ q ≤ 308`: it answers, and a valid answer is `roundNE (w·10^q)`.
 (When the low word is all ones on a truncated row the code falls back: the answer is invalid-marked.) -/
 theorem computeFloat_trunc_pos {F p eb sm lg rlo rhi} (LL : LemLayout F p eb sm lg rlo rhi) (hrhi : rhi < 28)
     (q : Nat) (h28 : 28 ≤ q) (h308 : q ≤ 308) (hqlg : (q : Int) ≤ lg) (w : Nat) (hw0 : w ≠ 0) (hw : w < 2 ^ 64) :
     ∃ fp, computeFloat F (q : Int) w false = .ok fp ∧
       (0 ≤ fp.exp → extendedToFloat F fp = roundNE F.fmt (w * 10 ^ q) 1) ∧
-      (fp.exp < 0 → EstOK F p fp (w * 10 ^ q) 1) := by
+      (fp.exp < 0 → EstOK F p fp (w * 10 ^ q) 1 ∧ LossyOK F (q : Int) w (w * 10 ^ q) 1) := by
   have lay := LL.lay
   have hf := lay.wf
   have hp := lay.hp; have hp64 := lay.hp64; have heb := lay.heb
@@ -316,12 +481,16 @@ theorem computeFloat_trunc_pos {F p eb sm lg rlo rhi} (LL : LemLayout F p eb sm 
     have h1 := lay.hpb
     have : eb ≠ 2 := by intro h; subst h; omega
     omega
-  obtain ⟨hi5, lo5, hrow, hhi5, hlo5, hhi5n, hb65, hTlo, hThi, hpow, hb716, hb128⟩ := rows_pos q h28 h308
+  obtain ⟨hi5, lo5, hrow, hhi5, hlo5, hhi5n, hb65, hTlo, hThi, hpow, hb716, hb128, hb129⟩ := rows_pos q h28 h308
   obtain ⟨hlz, hwn1, hwn2, hshl⟩ := clz_norm hw0 hw
   have hidx : ((q : Int) + 342).toNat = q + 342 := by omega
   have hprec : F.ms + litPrecisionExtra = p + 2 := by rw [hms]; show p - 1 + 3 = p + 2; omega
   obtain ⟨lo, hi, hcpa, hlo, hhi, hzlow, hzup⟩ := cpa_bounds (q : Int) (by omega) (by omega) hi5 lo5
     (by rw [hidx]; exact hrow) hhi5 hlo5 (w * 2 ^ clz64 w) (F.ms + litPrecisionExtra) (by rw [hprec]; omega) hwn2
+  have hlossy : computeFloat F (q : Int) w true = cfRound F (q : Int) lo hi (clz64 w) :=
+    computeFloat_lossy_eq F (q : Int) w lo hi
+      (by intro h; rcases h with h | h; exact hw0 h; rw [LL.smallest] at h; omega)
+      (by rw [LL.largest]; omega) (by rw [hshl]; exact hcpa)
   unfold computeFloat
   rw [if_neg (by intro h; rcases h with h | h; exact hw0 h; rw [LL.smallest] at h; omega),
     if_neg (by rw [LL.largest]; omega)]
@@ -356,7 +525,11 @@ theorem computeFloat_trunc_pos {F p eb sm lg rlo rhi} (LL : LemLayout F p eb sm 
       obtain ⟨hhi62, hlow, hupp⟩ := fallback_bounds (w * 2 ^ lz) hi5 lo5 lo hi (w * 2 ^ lz * 5 ^ q * 2 ^ (128 - b))
         (2 ^ (b - 128)) hwn1 hwn2 hhi5n hhi hzlow (hzup.imp id (fun h => ⟨h.2.1, h.2.2⟩)) (Nat.two_pow_pos _)
         hNlo hNhi hall
-      exact estOK_pos lay q b lz hi w hb65 hb716 h308 hlz hhi hhi62 hpow hlow hupp
+      refine ⟨estOK_pos lay q b lz hi w hb65 hb716 h308 hlz hhi hhi62 hpow hlow hupp, ?_⟩
+      obtain ⟨_, hzl, hzu⟩ := lossy_bounds (w * 2 ^ lz) hi5 lo5 lo hi (w * 2 ^ lz * 5 ^ q * 2 ^ (128 - b))
+        (2 ^ (b - 128)) hwn1 hwn2 hhi5n hhi hzlow (hzup.imp id (fun h => ⟨h.2.1, h.2.2⟩)) (Nat.two_pow_pos _)
+        hNlo hNhi hall
+      exact lossyOK_pos LL q b lz hi lo w (hb129 hfb.2) (by omega) hlz hlo hall hhi hhi62 hpow hlossy hzl hzu
   · have hc : (!false && lo == litAllOnes && !(decide (litSafeLo ≤ (q : Int)) && decide ((q : Int) ≤ litSafeHi))) = false := by
       by_cases hl : lo = litAllOnes
       · have hq55 : q ≤ 55 := by
